@@ -576,6 +576,15 @@ theorem save_guard2 (cfg : Cfg) (sig : List (String × Bool)) (tnames : List Str
   simp only [M.bind, get, hr, h]
   split <;> exact ⟨rfl, rfl⟩
 
+/-- The second guard's other half (3d20cf2: tensors stored in the file at `model_path` itself) fires: nothing at all happens. -/
+theorem save_guard3 (cfg : Cfg) (sig : List (String × Bool)) (tnames : List String) (dir name : String) (verbose : Bool) (s : St)
+    (hr : cfg.refuseModel = true) (h : (destHits (joinPath dir name) s.heap s.cv).isEmpty = false) :
+    (save cfg sig tnames dir name verbose s).1 = .error .valueError ∧ (save cfg sig tnames dir name verbose s).2 = s := by
+  unfold save
+  show (M.bind get _ s).1 = _ ∧ (M.bind get _ s).2 = _
+  simp only [M.bind, get, hr, h, Bool.not_false, Bool.and_self, Bool.or_true]
+  split <;> exact ⟨rfl, rfl⟩
+
 theorem guardHits_hit (deep : Bool) :
     ∀ (sig : List (String × Bool)) (cv : List (Option Nat)) (i : Nat) (n : String) (sub : Bool),
       sig[i]? = some (n, sub) → cv[i]? = some none → (deep = true ∨ sub = false) →
